@@ -95,9 +95,10 @@ func (k *Keeper) setOperatorConsKeyForChainID(
 	// only call the hooks if this is not genesis
 	if !genesis {
 		if found {
-			if !alreadyRecorded {
-				k.Hooks().AfterOperatorKeyReplaced(ctx, opAccAddr, prevKey, wrappedKey, chainID)
-			}
+			// called for every replacement (not only the first one in an epoch), so that the
+			// lookup by consensus address of a key that was replaced before it ever became
+			// active is released instead of staying reserved forever.
+			k.Hooks().AfterOperatorKeyReplaced(ctx, opAccAddr, prevKey, wrappedKey, chainID)
 		} else {
 			k.Hooks().AfterOperatorKeySet(ctx, opAccAddr, chainID, wrappedKey)
 		}
